@@ -165,6 +165,37 @@ def r04_2(ctx):
 
 
 # ------------------------------------------------------------------ R04.3
+def _level_offset(sub, at, v):
+    """integer k such that the subscript expression denotes level v + k (locals with a straight-line definition are expanded),
+    else None"""
+    from sa import affine
+    try:
+        e = resolve.expand(sub, at)
+        lin = affine.from_ast(e)
+        d = lin - affine.from_ast(ast.Name(id=v, ctx=ast.Load()))
+        if not d.symbols():
+            return int(d.k)
+    except Exception:
+        return None
+    return None
+
+
+def _level_updates(body, v, attr_prefix):
+    """[(offset, op class, statement)] for the unconditional statements `self.<attr>[level] op= ...` of a loop body"""
+    out = []
+    for s_ in body:
+        tgt = op = None
+        if isinstance(s_, ast.AugAssign) and isinstance(s_.target, ast.Subscript) and src(s_.target.value) == attr_prefix:
+            tgt, op = s_.target, type(s_.op)
+        elif isinstance(s_, ast.Expr) and isinstance(s_.value, ast.Call) and isinstance(s_.value.func, ast.Attribute) \
+                and isinstance(s_.value.func.value, ast.Subscript) and src(s_.value.func.value.value) == attr_prefix \
+                and s_.value.func.attr in ('update', 'difference_update'):
+            tgt, op = s_.value.func.value, (ast.BitOr if s_.value.func.attr == 'update' else ast.Sub)
+        if tgt is not None:
+            out.append((_level_offset(tgt.slice, s_, v), op, s_))
+    return out
+
+
 def r04_3(ctx):
     r = ctx.prog.func(H + '.HMesh.refine')
     loop = [l for l in own_nodes(r.node) if isinstance(l, ast.For) and 'range(len(self.meshes) - 1)' in src(l.iter)]
@@ -182,13 +213,20 @@ def r04_3(ctx):
              ('self.deactivated[%s]' % lv, ast.BitOr, 'and enter the deactivated set of the same level'),
              ('self.active[%s+1]' % lv, ast.BitOr, 'their children become active on the next level'))
     vals = {}
-    all_sem = True
-    for tgt, op, why in pairs:
-        top = [s for s in body if isinstance(s, ast.AugAssign) and src(s.target).replace(' ', '') == tgt and isinstance(s.op, op)]
-        if not top:
-            all_sem = False
-            break
-        vals[tgt] = top[0]
+    all_sem = False
+    if isinstance(loop[0].target, ast.Name):
+        ua = _level_updates(body, lv, 'self.active')
+        ud = _level_updates(body, lv, 'self.deactivated')
+        for (k0, op0, s0) in ua:
+            if k0 is None or op0 is not ast.Sub or not isinstance(s0, ast.AugAssign):
+                continue
+            d_ = [s1 for (k1, op1, s1) in ud if k1 == k0 and op1 is ast.BitOr and isinstance(s1, ast.AugAssign)]
+            c_ = [s2 for (k2, op2, s2) in ua if k2 == k0 + 1 and op2 is ast.BitOr and isinstance(s2, ast.AugAssign)]
+            if d_ and c_:
+                vals = {pairs[0][0]: s0, pairs[1][0]: d_[0], pairs[2][0]: c_[0]}
+                all_sem = True
+                lv = src(s0.target.slice)
+                break
     if all_sem:
         a, d, c = (vals[p[0]] for p in pairs)
         same = src(a.value) == src(d.value)
@@ -200,13 +238,13 @@ def r04_3(ctx):
             'new_cells' in src(c.value)
         ctx.decide('R04.3', r.qual, 'cells added to active[%s+1] are the children of the refined cells' % lv, kids or None, c, src(c.value)[:80])
         # the children handed back to the caller (new_cells[lv+1]) are the set that became active
-        nc = [s_ for s_ in body if isinstance(s_, ast.Assign) and src(s_.targets[0]).replace(' ', '') == 'new_cells[%s+1]' % lv]
+        nc = [s_ for s_ in body if isinstance(s_, ast.Assign) and isinstance(s_.targets[0], ast.Subscript) and src(s_.targets[0].value) == 'new_cells']
         if nc:
             from sa import resolve as _resolve
             v1 = src(_resolve.expand(nc[0].value, nc[0], keep=('new_cells', 'cells'))).replace(' ', '')
             v2 = src(_resolve.expand(c.value, c, keep=('new_cells', 'cells'))).replace(' ', '')
-            ctx.decide('R04.3', r.qual, 'new_cells[%s+1] holds the children that become active' % lv,
-                       True if ('cell_children' in v1 and (v1 in v2 or 'new_cells[%s+1]' % lv in v2)) else None, nc[0], '%s / %s' % (v1[:60], v2[:60]))
+            ctx.decide('R04.3', r.qual, '%s holds the children that become active' % src(nc[0].targets[0]),
+                       True if ('cell_children' in v1 and (v1 in v2 or 'new_cells[' in v2)) else None, nc[0], '%s / %s' % (v1[:60], v2[:60]))
     if all_sem:
         # the semantic obligations above stand in for the textual table below (which is kept for loops written differently)
         cc = ctx.prog.func(H + '.HMesh.cell_children')
@@ -249,11 +287,26 @@ def _r04_3_hspace(ctx):
     if not loop:
         raise AnchorMissing('R04.3: level loop of HSpace.refine')
     texts = [src(s).replace(' ', '') for s in loop[0].body]
+    # the pairing read through the level offsets of the subscripts (whatever the loop variable and the locals are called)
+    by_offset = {}
+    if isinstance(loop[0].target, ast.Name):
+        v_ = loop[0].target.id
+        ua = _level_updates(loop[0].body, v_, 'self.actfun')
+        ud = _level_updates(loop[0].body, v_, 'self.deactfun')
+        for (k0, op0, s0) in ua:
+            if k0 is not None and op0 is ast.Sub:
+                if any(k1 == k0 and op1 is ast.BitOr for (k1, op1, _s) in ud) and any(k2 == k0 + 1 and op2 is ast.BitOr for (k2, op2, _s) in ua):
+                    by_offset = {'self.actfun[lv]-=mfuncs': s0,
+                                 'self.deactfun[lv]|=mfuncs': [s1 for (k1, op1, s1) in ud if k1 == k0 and op1 is ast.BitOr][0],
+                                 'self.actfun[lv+1]|=newfuncs': [s2 for (k2, op2, s2) in ua if k2 == k0 + 1 and op2 is ast.BitOr][0]}
     for k, why in {'self.actfun[lv]-=mfuncs': 'deactivated functions leave actfun', 'self.deactfun[lv]|=mfuncs': 'and enter deactfun',
                    'self.actfun[lv+1]|=newfuncs': 'new functions are activated on the finer level'}.items():
         present = k in texts or k.replace('|=', '.update(').replace('-=', '.difference_update(') + ')' in texts
         if present:
             ctx.met('R04.3', hr.qual, k, loop[0], why)
+            continue
+        if k in by_offset:
+            ctx.met('R04.3', hr.qual, k, by_offset[k], why + ' (as `%s`)' % src(by_offset[k])[:70])
             continue
         # the same update with another right-hand side (a helper call, a renamed local): look at the target and the operator
         tgt = k.split('|=')[0].split('-=')[0]
